@@ -41,11 +41,42 @@ Qed.
 
 (* ---------- applying one namespace leaves the others untouched ---------- *)
 
+Lemma okey_eqb_eq : forall a b, okey_eqb a b = true <-> a = b.
+Proof.
+  intros [x|x] [y|y]; simpl; split; intros H; try discriminate; try (inversion H; subst).
+  - apply Z.eqb_eq in H; subst; reflexivity.
+  - apply Z.eqb_refl.
+  - apply String.eqb_eq in H; subst; reflexivity.
+  - apply String.eqb_refl.
+Qed.
+
+Lemma pstep_eqb_eq : forall a b, pstep_eqb a b = true <-> a = b.
+Proof.
+  intros a b; destruct a, b; simpl; split; intros H; try discriminate; try reflexivity;
+    try (inversion H; subst; first [apply String.eqb_refl | apply okey_eqb_eq; reflexivity]).
+  - apply String.eqb_eq in H; subst; reflexivity.
+  - apply okey_eqb_eq in H; subst; reflexivity.
+  - apply String.eqb_eq in H; subst; reflexivity.
+Qed.
+
+Lemma lpath_eqb_eq : forall a b, lpath_eqb a b = true <-> a = b.
+Proof.
+  induction a as [|x a IH]; intros [|y b]; simpl; split; intros H; try discriminate; try reflexivity.
+  - apply andb_true_iff in H. destruct H as [H1 H2]. apply pstep_eqb_eq in H1. apply IH in H2. subst; reflexivity.
+  - inversion H; subst. apply andb_true_iff. split; [apply pstep_eqb_eq | apply IH]; reflexivity.
+Qed.
+
+Lemma lpath_eqb_refl : forall a, lpath_eqb a a = true.
+Proof. intros a. apply lpath_eqb_eq. reflexivity. Qed.
+
 Lemma lt_get_set_other : forall p q x lt, p <> q -> lt_get p (lt_set q x lt) = lt_get p lt.
 Proof.
-  intros p q x lt H. unfold lt_get, lt_set. simpl.
-  destruct (String.eqb p q) eqn:E; auto. apply String.eqb_eq in E; contradiction.
+  intros p q x lt H. unfold lt_set. simpl.
+  destruct (lpath_eqb p q) eqn:E; auto. apply lpath_eqb_eq in E; contradiction.
 Qed.
+
+Lemma lt_get_set_same : forall p x lt, lt_get p (lt_set p x lt) = Some x.
+Proof. intros p x lt. unfold lt_set. simpl. rewrite lpath_eqb_refl. reflexivity. Qed.
 
 Lemma link_ns_untouched : forall fuel src ns here s lt lt' p,
   link_ns fuel src ns here s lt = Ok lt' ->
